@@ -109,6 +109,13 @@ def check(ctx):
                 lb, li = C.kids(lhs)
                 rb, ri = C.kids(rhs)
                 li = C.strip(li)
+                if li.get("kind") == "DeclRefExpr":
+                    # the group index held in a local that is initialised once (`const int group = atom_mapping[atom]`) and never assigned again
+                    vd = next((v for v in C.walk(sf) if v["kind"] == "VarDecl" and v.get("id") == C.ref_id(li) and C.kids(v)), None)
+                    reassigned = any(x_["kind"] in ("BinaryOperator", "CompoundAssignOperator") and x_.get("opcode", "").endswith("=") and x_.get("opcode") not in ("==", "!=", "<=", ">=")
+                                     and C.ref_id(C.kids(x_)[0]) == C.ref_id(li) for x_ in C.walk(sf))
+                    if vd is not None and not reassigned:
+                        li = C.strip(C.kids(vd)[-1])
                 if C.ref_id(rb) == buf_id and li.get("kind") == "ArraySubscriptExpr" and C.ref_id(C.kids(li)[0]) == p_map:
                     acc.append((n, rows.get(C.ref_id(lb), False), C.ref_id(C.kids(li)[1]) is not None and C.ref_id(C.kids(li)[1]) == C.ref_id(ri)))
     # an OpenMP region lists its body twice in the AST (captured statement and original): one statement, seen twice
